@@ -1,5 +1,5 @@
 import ErdosVerif.Lemmas.SimResidentInv
-import ErdosVerif.Lemmas.SimResidentSpec
+import ErdosVerif.Lemmas.SimResidentPlace
 /-!
 Part 7a: pure lemmas for `__step(dt)`: every RUNNING task is stepped (through the worker
 it is resident on), `start + remaining-at-start = now + remaining` is restored when the
